@@ -1,6 +1,9 @@
 package main
 
-import "testing"
+import (
+	"strings"
+	"testing"
+)
 
 func specOf(t *testing.T, src string) *GSpec {
 	s, err := parseSyntaxText(src)
@@ -125,5 +128,97 @@ func TestScopeSizes(t *testing.T) {
 	}
 	if len(a) != len(b) {
 		t.Fatal("seed changed the number of cases")
+	}
+}
+
+func TestReadGrammar(t *testing.T) {
+	src := `/* c */
+a : 'a' ; semi : ';' ; _d : '0'-'9' ; !ws : ' ' | '\n' ;
+<< import "fmt" >>
+S : A "x" ";" << fmt.Sprint($0), nil >> | error semi ;
+A : a ;
+A : empty | "if" A ;
+`
+	s, err := readGrammar(src)
+	if err != nil {
+		t.Fatal(err)
+	}
+	if got := strings.Join(s.Lex, ","); got != "a,semi" {
+		t.Errorf("lexical tokens = %s", got)
+	}
+	g := s.grammar()
+	want := []string{"S' : S", `S : A "x" ";"`, "S : error semi", "A : a", "A : empty", `A : "if" A`}
+	if len(g.Prods) != len(want) {
+		t.Fatalf("%d productions", len(g.Prods))
+	}
+	for i, w := range want {
+		if g.prodString(i) != w {
+			t.Errorf("production %d = %q, want %q", i, g.prodString(i), w)
+		}
+	}
+	if len(g.Prods[4].Body) != 0 || len(g.Prods[1].Body) != 3 {
+		t.Error("body lengths")
+	}
+	if _, err := readGrammar("S : a Undefined ;"); err == nil {
+		t.Error("undefined nonterminal not reported")
+	}
+}
+
+func TestChainsTier(t *testing.T) {
+	q, _ := scopeSpecs("quick")
+	n := q.tiers["Q5-chains"]
+	if n < 150 || n > 250 {
+		t.Errorf("chains tier has %d grammars", n)
+	}
+	have := map[string]bool{}
+	for _, s := range q.specs {
+		if s.Tier != "Q5-chains" {
+			continue
+		}
+		have[strings.Join(strings.Fields(s.syntaxText()), " ")] = true
+		if k := len(s.Alts); k < 3 || k > 6 {
+			t.Errorf("chains grammar with %d nonterminals: %s", k, s.syntaxText())
+		}
+	}
+	for _, w := range []string{
+		"Top : P S ; P : p ; S : A x ; A : B | a ; B : C | b ; C : c ;",
+		"Top : P S ; C : c ; B : C | b ; A : B | a ; S : A x ; P : p ;",
+		"Decl : Type Mods x ; Type : t ; Mods : Quals ; Quals : empty | Quals q ;",
+		"S : x A Opt c ; A : a | A a ; Opt : o | empty ;",
+		"S : Y A d ; Y : y | y d ; A : B C ; B : empty | b ; C : empty | c ;",
+	} {
+		if !have[w] {
+			t.Errorf("fixed member missing: %s", w)
+		}
+	}
+	// the text of the first fixed member, lexical part included
+	for _, s := range q.specs {
+		if s.Tier == "Q5-chains" {
+			want := "a : 'a' ; b : 'b' ; c : 'c' ; p : 'p' ; x : 'x' ; !ws : ' ' ;\n\nTop : P S ;\nP : p ;\nS : A x ;\nA : B | a ;\nB : C | b ;\nC : c ;\n"
+			if s.text() != want {
+				t.Errorf("text = %q", s.text())
+			}
+			break
+		}
+	}
+}
+
+// The case ids of the pre-chains scopes must never change.
+func TestStableIDs(t *testing.T) {
+	q, _ := scopeSpecs("quick")
+	ids := map[string]string{}
+	for _, c := range buildCases(q.specs, 0) {
+		ids[strings.TrimSpace(c.Spec.syntaxText())+"|"+strings.Join(c.Flags, " ")] = c.ID
+	}
+	for k, want := range map[string]string{
+		"S : empty ;|":     "c4bba01b29d3",
+		"S : S | b a ;|":   "39b55b743130",
+		"S : S | S b ;|":   "39671a0cc9fd",
+		"S : a S b ;|":     "49c7dd092bb3",
+		"S : error a S ;|": "df8f47a3f7d5",
+	} {
+		if ids[k] != want {
+			t.Errorf("id of %q = %s, want %s", k, ids[k], want)
+		}
 	}
 }
